@@ -964,23 +964,13 @@ func ruleRoleAgree(r *Run) {
 			}
 			same := false
 			src := p.origins(st.Val, originOpts{})
-			eachInstrDeep(top, func(g *ssa.Function, x ssa.Instruction) {
-				s2, ok := x.(*ssa.Store)
-				if !ok {
-					return
-				}
-				fa2, ok := s2.Addr.(*ssa.FieldAddr)
-				if !ok || fieldOfAddr(fa2) != hm {
-					return
-				}
-				for _, a := range p.origins(s2.Val, originOpts{}) {
-					for _, b := range src {
-						if a == b {
-							same = true
-						}
+			for _, a := range p.fieldValuesIn(top, hm) {
+				for _, b := range src {
+					if a == b {
+						same = true
 					}
 				}
-			})
+			}
 			r.check(same, shortFunc(fn)+"/"+owner.Obj().Name()+".FullMethod", in.Pos(), "FullMethod is the value registered as the handler's method key",
 				"FullMethod is not the value registered as the handler's method key: interceptors see another method name than the one dispatched")
 		})
